@@ -17,7 +17,7 @@
     they started) is an assumption of this judge, checked only by the runs themselves. *)
 From TT Require Export Judge.C05 Capture.Concurrent.
 From TT Require Export Capture.Solo.
-From TT Require Import Capture.Queries Capture.QueriesProofs Tunnel.TypesProofs Capture.LayerProofs Guest.ProgramProofs Capture.SoloProofs Capture.SoloOpen.
+From TT Require Import Capture.Queries Capture.QueriesProofs Tunnel.TypesProofs Capture.LayerProofs Guest.ProgramProofs Capture.SoloProofs Capture.SoloOpen Capture.Footprint.
 From Coq Require Import Sorting.Sorted.
 
 (** * [storage_wf], executable *)
@@ -309,6 +309,45 @@ Definition workers_ok (T : nat) (p : prog) (f : fexpr) (st : cstorage) : bool :=
   forallb (fun t => tview_eqb (captured_view (feval f) (tview_of t (feval f) [] p)) (impl_tview st t)
                     && list_eqb Bool.eqb (expected_closed t (feval f) p) (impl_closed st t)) (workers T).
 
+Lemma forallb_ext_in' {A} (P Q : A -> bool) l : (forall x, In x l -> P x = Q x) -> forallb P l = forallb Q l.
+Proof.
+  induction l as [|a l IH]; intros H; [reflexivity|]. cbn. rewrite (H a (or_introl eq_refl)), IH; [reflexivity|].
+  intros x Hx. apply H. right. exact Hx.
+Qed.
+
+(** ** the main thread's spans: their enter / exit counters are sums over all threads; by
+    [C05_enter_exit_counts] they are the numbers of enter / exit operations on the span in the
+    execution, which no reordering of the operations changes ([count_ops_perm]) *)
+Fixpoint nth_owned (t : nat) (ow : list nat) (n : nat) (base : nat) : option nat :=
+  match ow with
+  | [] => None
+  | o :: r => if Nat.eqb o t then (match n with O => Some base | S n' => nth_owned t r n' (S base) end)
+              else nth_owned t r n (S base)
+  end.
+Definition main_counts_ok (p : prog) (st : cstorage) : bool :=
+  let ow := owners_of (p_sites p) (p_ops p) in
+  forallb (fun r : Storage.span_rec span_payload =>
+             match marker (spl_values (sp_payload r)) with
+             | Some (0%Z, n) =>
+                 match nth_owned 0 ow (Z.to_nat n) 0 with
+                 | Some k => (spl_entered (sp_payload r) =? count_ops (is_enter k) (p_ops p))
+                             && (spl_exited (sp_payload r) =? count_ops (is_exit k) (p_ops p))
+                 | None => false
+                 end
+             | _ => true
+             end) (st_spans st).
+
+Theorem main_counts_ok_order_independent p p' st :
+  p_sites p' = p_sites p -> owners_of (p_sites p) (p_ops p') = owners_of (p_sites p) (p_ops p) ->
+  Permutation.Permutation (p_ops p) (p_ops p') ->
+  main_counts_ok p' st = main_counts_ok p st.
+Proof.
+  intros Es Eo Hperm. unfold main_counts_ok. rewrite Es, Eo. apply forallb_ext_in'. intros r _.
+  destruct (marker (spl_values (sp_payload r))) as [[[|?|?] n]|]; try reflexivity.
+  destruct (nth_owned 0 (owners_of (p_sites p) (p_ops p)) (Z.to_nat n) 0) as [k|]; [|reflexivity].
+  rewrite (count_ops_perm (is_enter k) _ _ Hperm), (count_ops_perm (is_exit k) _ _ Hperm). reflexivity.
+Qed.
+
 (** [p]: one linearization of the per-thread programs (the harness uses: main's prelude, then each
     worker's whole program in turn, then main's postlude); [T]: number of threads *)
 Definition judge_free (T : nat) (p : prog) (f : fexpr) (impl : option cstorage) : verdict :=
@@ -317,19 +356,13 @@ Definition judge_free (T : nat) (p : prog) (f : fexpr) (impl : option cstorage) 
                        (option_map (views T) impl))
            (match impl with
             | Some st => views_eqb (views T (spec_storage (feval f) [] p)) (views T st)
-                         && (snd (views T st) =? 0) && wf_b st && workers_ok T p f st
+                         && (snd (views T st) =? 0) && wf_b st && workers_ok T p f st && main_counts_ok p st
             | None => false
             end).
 
 (** the expected worker views do not depend on which linearization the harness picked: any other
     execution with the same solo executions (that is, any other interleaving of the same per-thread
     programs) has the same views *)
-Lemma forallb_ext_in' {A} (P Q : A -> bool) l : (forall x, In x l -> P x = Q x) -> forallb P l = forallb Q l.
-Proof.
-  induction l as [|a l IH]; intros H; [reflexivity|]. cbn. rewrite (H a (or_introl eq_refl)), IH; [reflexivity|].
-  intros x Hx. apply H. right. exact Hx.
-Qed.
-
 Theorem workers_ok_schedule_independent T p p' f st :
   free_scope T p = true -> free_scope T p' = true ->
   (forall t, In t (workers T) -> solo t p' = solo t p) ->
